@@ -103,6 +103,39 @@ func rulePageMatch(c *Ctx, rule, pkg string) {
 // ---- ARITH -------------------------------------------------------------------------------------
 
 func pagingFields(c *Ctx, pkg string) (limit, offset *types.Var) {
+	// the struct that carries the paging targets: the shared `scanner` base, or, where that has been folded into
+	// the scanners themselves, the one struct of the package with both fields
+	if pk := c.P.pkg(pkg); pk != nil {
+		if tn, _ := pk.Types.Scope().Lookup("scanner").(*types.TypeName); tn == nil {
+			var ls, os []*types.Var
+			for _, name := range pk.Types.Scope().Names() {
+				tn, isTN := pk.Types.Scope().Lookup(name).(*types.TypeName)
+				if !isTN {
+					continue
+				}
+				st, isSt := tn.Type().Underlying().(*types.Struct)
+				if !isSt {
+					continue
+				}
+				var l, o *types.Var
+				for i := 0; i < st.NumFields(); i++ {
+					switch st.Field(i).Name() {
+					case "targetLimit":
+						l = st.Field(i)
+					case "targetOffset":
+						o = st.Field(i)
+					}
+				}
+				if l != nil && o != nil {
+					ls, os = append(ls, l), append(os, o)
+				}
+			}
+			if len(ls) == 1 {
+				c.P.RenamedAnchors = append(c.P.RenamedAnchors, pkg+".scanner -> "+ls[0].Pkg().Name()+" struct holding targetLimit/targetOffset")
+				return ls[0], os[0]
+			}
+		}
+	}
 	return c.P.Field(pkg, "scanner", "targetLimit"), c.P.Field(pkg, "scanner", "targetOffset")
 }
 
